@@ -76,3 +76,31 @@ def sig_eq(name, n, alpha, tier, expect_s):
 sig_eq('sig.full3', 3, 1, 'quick', 60)      # every byte value, <= 3 bytes
 sig_eq('sig.class7', 7, 0, 'quick', 400)    # class alphabet, <= 7 bytes (shortest mis-nesting witness has 7)
 sig_eq('sig.class8', 8, 0, 'thorough', 1200)
+
+for nm, fn, d in (('ascii', '_dbus_string_validate_ascii', 1), ('nul', '_dbus_string_validate_nul', 0)):
+    UNITS.append(dict(name='C16.' + nm, props=['C16', 'C01', 'C08' if d else 'C10'], kind='P', route='dfcc', entry='harness', enforce=[fn],
+                      tus=[dict(file=STR, overlay='string_utf8.ovl')], harness='harness/c16_bytescan.c', extra_sources=[ASSERT],
+                      defines=['VERIF_ASCII=%d' % d], timeout=600, expect_s=20, must_have=LOOPINV,
+                      functions=[dict(name=fn, file=STR, status='enforced', contract='every byte satisfies the class, both directions, unbounded length')],
+                      assumptions=COMMON_ASSUME))
+
+UNITS.append(dict(name='C16.wrappers', props=['C16'], kind='P', route='stub', entry='harness',
+                  tus=[dict(file='dbus/dbus-syntax.c', raw=True), dict(file='dbus/dbus-signature.c', raw=True)], harness='harness/c16_wrappers.c',
+                  replace_calls={'dbus_set_error': 'verif_stub_dbus_set_error', '_dbus_string_init_const': 'verif_stub_string_init_const',
+                                 '_dbus_string_get_length': 'verif_stub_string_get_length'},
+                  unwind=64, timeout=300, expect_s=5, must_have=['public verdict == internal'],
+                  functions=[dict(name='dbus_validate_path/_interface/_member/_error_name/_bus_name/_utf8', file='dbus/dbus-syntax.c', status='enforced'),
+                             dict(name='dbus_signature_validate', file='dbus/dbus-signature.c', status='enforced'),
+                             dict(name='_dbus_validate_* / _dbus_string_validate_utf8 / _dbus_validate_signature_with_reason', file=VAL, status='replaced', note='contracts enforced by the C16 scanner units'),
+                             dict(name='_dbus_string_init_const/_get_length', file=STR, status='stub', note='const string over the C string, length = strlen (ghost)')],
+                  assumptions=['_dbus_string_init_const makes a constant DBusString of strlen(value) bytes over value']))
+
+for nm, n, tier, exp in (('sig.single6', 6, 'quick', 300), ('sig.single7', 7, 'thorough', 900)):
+    UNITS.append(dict(name='C16.' + nm, props=['C16'], kind='B', route='plain', entry='harness', tus=SIGTUS + [dict(file='dbus/dbus-marshal-basic.c'), dict(file='dbus/dbus-marshal-recursive.c')],
+                      harness='harness/eq_signature.c', extra_sources=[ASSERT, 'stubs/list_as_stack.c'],
+                      defines=['VERIF_N=%d' % n, 'VERIF_ALPHA=0', 'VERIF_SINGLE=1'], unwind=n + 3, timeout=3000, tier=tier, expect_s=exp,
+                      trace_is_execution=True,
+                      bounds={'signature_bytes': n, 'alphabet': 'class alphabet {s,v,a,(,),{,},Z}'},
+                      functions=[dict(name='dbus_signature_validate_single', file='dbus/dbus-signature.c', status='bounded'),
+                                 dict(name='dbus_signature_iter_init/_get_current_type/_next', file='dbus/dbus-signature.c', status='bounded', note='real code inlined')],
+                      assumptions=['dbus-list behaves as a LIFO stack of integers in the signature validator (stub, not verified)']))
